@@ -723,8 +723,11 @@ struct UnsafeFinder {
 }
 impl<'v> rustc_hir::intravisit::Visitor<'v> for UnsafeFinder {
     fn visit_block(&mut self, b: &'v rustc_hir::Block<'v>) {
-        if let rustc_hir::BlockCheckMode::UnsafeBlock(_) = b.rules {
-            self.found = true;
+        if let rustc_hir::BlockCheckMode::UnsafeBlock(rustc_hir::UnsafeSource::UserProvided) = b.rules {
+            // `format_args!` and friends expand to unsafe blocks; only user-written ones count
+            if !b.span.from_expansion() {
+                self.found = true;
+            }
         }
         rustc_hir::intravisit::walk_block(self, b);
     }
